@@ -179,7 +179,7 @@ PROPS["C01"]["verus"]["serial"] = SERIAL_FNS
 PROPS["C08"]["verus"]["serial"] = SERIAL_FNS
 
 PROPS["C10"]["verus"]["readers"] = ["PropertyValue::read", "PropertySet::read", "PropertyValue::minimum_version", "Timestamp::read_from",
-                                    "lemma_pv_pair", "lemma_le32_rt", "lemma_le16_rt", "lemma_u64_halves", "lemma_i16_rt", "lemma_i32_rt", "lemma_i8_rt"]
+                                    "lemma_pv_pair", "lemma_pv_pair_small", "lemma_pv_pair_i1", "lemma_pv_pair_i2", "lemma_pv_pair_str", "lemma_pv_pair_time", "lemma_le32_rt", "lemma_le16_rt", "lemma_u64_halves", "lemma_i16_rt", "lemma_i32_rt", "lemma_i8_rt"]
 PROPS["C19"]["verus"]["queryfmt"] = ["Delete::fmt", "Insert::fmt", "Update::fmt", "Join::fmt", "Select::format_for_join", "Select::fmt"]
 PROPS["C10"]["verus"]["serial"] = ["PropertyValue::encoded_size_including_padding", "PropertyValue::write", "Timestamp::write_to", "lemma_pad",
                                     "PropertySet::write", "PropertyValue::minimum_version", "PropertyFormatVersion::version_number",
